@@ -313,6 +313,19 @@ theorem covered_site_is_transparent {Val V : Type} [DecidableEq Val] (s : Site) 
   · have hmem : n ∈ s.immutable := by simpa using h
     rw [i.2 n hmem, j.2 n hmem]
 
+
+/-- **the only process-wide mutable state** that any function of `src/yadism` changes (module-level
+containers, class-level containers, class attributes rebound from inside a function, names rebound
+through `global`) is the table of loaded N3LO grids — and that one is a memo table with a complete
+key (first entry of `memo_census`).  Everything else a run writes lives in objects created by the
+run (`Runner`, `StructureFunction`, `ScaleVariations`, …), so two runners in one process share no
+state through which one could influence the other. -/
+theorem shared_state_census :
+    sharedState = [("yadism.coefficient_functions.heavy.n3lo.__init__", "interpolators")] := by decide
+
+theorem shared_state_is_a_covered_memo :
+    ∀ p ∈ sharedState, ∃ s ∈ sites, s.table = p.2 ∧ s.covered = true := by decide
+
 /-- … and the check is not vacuous: a table keyed without something its value reads is rejected
 (the shape of the seeded changes C05-2, C06-3, C14-2: an operator table keyed by the label alone) -/
 example : Site.covered ⟨"compute_raw", "self.operators", "l", ["self.raw_labels"],
